@@ -505,6 +505,7 @@ for _st in STYLES + ["default"]:
     for _cn in sorted(TABLE_CONTENT):
         FACTORIES["table/%s/%s" % (_st, _cn)] = ("Table/" + _st, IO_BASIC)
 FACTORIES.update({
+    "table/styled/tags": ("Table/styled", IO_BASIC),  # own BorderStyle object with a Style, cell styles, alignments
     "paragraph/short": ("Paragraph", IO_BASIC),
     "paragraph/long": ("Paragraph", IO_BASIC),
     "labeled/plain": ("LabeledParagraph", IO_BASIC),
@@ -538,6 +539,22 @@ def build_component(name):
     from props import _c17_fixtures as fx
 
     parts = name.split("/")
+    if name == "table/styled/tags":
+        from clikit.api.formatter import Style
+        from clikit.ui.style.alignment import Alignment
+        from clikit.ui.style.border_style import BorderStyle
+        st = TableStyle()
+        st.border_style = BorderStyle()  # an object of its own: the shared singletons are the subject of part 3
+        st.border_style.style = Style().fg("blue")
+        st.cell_style = Style().bold()
+        st.header_cell_style = Style().underlined()
+        st.header_cell_format = st.cell_format = " {} "
+        st.set_column_alignment(1, Alignment.RIGHT)
+        t = Table(st)
+        hdr, rows = TABLE_CONTENT["tags"]
+        t.set_header_row(list(hdr))
+        t.add_rows([list(r) for r in rows])
+        return t, {}
     if parts[0] == "table":
         t = Table(None if parts[1] == "default" else getattr(TableStyle, parts[1])())
         hdr, rows = TABLE_CONTENT[parts[2]]
@@ -600,6 +617,15 @@ def _render(obj, kw, io):
     return out
 
 
+def _cdiff(ref, got):
+    """how a component render differs from its reference (for the signature)"""
+    if isinstance(got[0], str) and got[0].startswith("crash:"):
+        return got[0]
+    if ref[0] != got[0]:
+        return textclass(ref[0], got[0])
+    return "stderr~" + textclass(ref[1], got[1])
+
+
 def component_ref(key):
     name, io = key
     def fresh():
@@ -651,7 +677,7 @@ def explore_components(rep, seq_depth, pair_ios):
         def step(state, h):
             got = _render(state[0], state[1], make_io(h[-1]))
             if got != refs[(f, h[-1])]:
-                return {"kind": "seq", "factory": f, "ios": list(h)}
+                return {"kind": "seq", "factory": f, "ios": list(h), "d": _cdiff(refs[(f, h[-1])], got)}
             return None
 
         def twice(state, fd):
@@ -662,8 +688,9 @@ def explore_components(rep, seq_depth, pair_ios):
                     try:
                         io = make_io(io_kind)
                         a, b = _render(state[0], state[1], io), _render(state[0], state[1], io)
-                        if not (a == b == refs[(f, io_kind)]):
-                            _emit(fd, {"kind": "same-io", "factory": f, "io": io_kind})
+                        r = refs[(f, io_kind)]
+                        if not (a == b == r):
+                            _emit(fd, {"kind": "same-io", "factory": f, "io": io_kind, "d": _cdiff(r, a if a != r else b)})
                     except BaseException:
                         code = 3
                     finally:
@@ -690,8 +717,9 @@ def explore_components(rep, seq_depth, pair_ios):
         def step(state, h):
             f2, io2 = h[-1].split("@")
             o2, kw2 = build_component(f2)
-            if _render(o2, kw2, make_io(io2)) != refs[(f2, io2)]:
-                return {"kind": "pair", "first": f1, "first_io": io1, "factory": f2, "io": io2}
+            got = _render(o2, kw2, make_io(io2))
+            if got != refs[(f2, io2)]:
+                return {"kind": "pair", "first": f1, "first_io": io1, "factory": f2, "io": io2, "d": _cdiff(refs[(f2, io2)], got)}
             return None
 
         return (tree_job(setup, (), seconds, 1, step) if seconds else []), len(seconds)
@@ -710,7 +738,7 @@ def explore_components(rep, seq_depth, pair_ios):
     seq_viol = {}
     for c in bad:
         if c["kind"] == "seq":
-            seq_viol.setdefault(c["factory"], {})[tuple(c["ios"])] = ("differs",)
+            seq_viol.setdefault(c["factory"], {})[tuple(c["ios"])] = (c["d"],)
     seq_min = {f: set(minimal(vm)) for f, vm in seq_viol.items()}
     keep = []
     for c in bad:
@@ -718,17 +746,16 @@ def explore_components(rep, seq_depth, pair_ios):
         if c["kind"] == "seq":
             if tuple(c["ios"]) not in seq_min[c["factory"]]:
                 continue
-            sig = "component:%s:%s" % (g.split("/")[0], ">".join(c["ios"]))
+            sig = "component:%s:%s:on-%s" % (g.split("/")[0], c["d"], c["ios"][-1])
             what = "%s rendered on %s differs from a fresh object's render on %s" % (c["factory"], " then ".join(c["ios"]), c["ios"][-1])
         elif c["kind"] == "same-io":
-            sig = "component-twice:%s:%s" % (g.split("/")[0], c["io"])
+            sig = "component-twice:%s:%s:on-%s" % (g.split("/")[0], c["d"], c["io"])
             what = "%s rendered twice on one %s IO: outputs differ from the fresh render" % (c["factory"], c["io"])
         else:
-            sig = "other-object:%s:after:%s" % (g, FACTORIES[c["first"]][0])
-            if g == "ExceptionTrace":
-                sig += ":%s>%s" % (c["first_io"], c["io"])
+            sig = "other-object:%s:after:%s:%s:on-%s" % (g, FACTORIES[c["first"]][0], c["d"], c["io"])
             what = "%s on %s, after %s had been rendered on %s in the same process, differs from its render in a fresh process" % (
                 c["factory"], c["io"], c["first"], c["first_io"])
+        c = {k: v for k, v in c.items() if k != "d"}
         keep.append((len(json.dumps(c)), sig, what, c))
     for _, sig, what, c in sorted(keep, key=lambda x: (x[0], x[1], json.dumps(x[3], sort_keys=True))):
         if sig in rep.violations:
